@@ -269,7 +269,7 @@ func checkC17(r *core.Run, p *core.Program) {
 			r.Undecided("C17.session-cache", spec.rel+"."+spec.fn)
 			continue
 		}
-		c17Placeholder(r, f)
+		c17Placeholder(r, p, f)
 	}
 	// all access to the cache field through sync.Map methods (no copy of the map value, no address taken)
 	for _, spec := range []struct{ rel, field string }{{"iterator", "iteratorFuncs"}, {"builder", "builderGenerators"}} {
@@ -370,7 +370,7 @@ func constructedElsewhere(p *core.Program, nt *types.Named) bool {
 }
 
 // c17Placeholder checks the placeholder-and-WaitGroup protocol of one cache-fill function.
-func c17Placeholder(r *core.Run, f *fn) {
+func c17Placeholder(r *core.Run, p *core.Program, f *fn) {
 	info := f.Pkg.TypesInfo
 	var wgObj, capObj types.Object
 	var addPos, publishPos token.Pos
@@ -443,35 +443,53 @@ func c17Placeholder(r *core.Run, f *fn) {
 	}
 	// every wg.Done() is preceded, in its block, by an assignment to the captured variable
 	nDone := 0
-	var visit func(list []ast.Stmt, assignedBefore bool)
-	visit = func(list []ast.Stmt, assignedBefore bool) {
+	var visit func(list []ast.Stmt, assignedBefore bool, isCap func(ast.Expr) bool, depth int)
+	visit = func(list []ast.Stmt, assignedBefore bool, isCap func(ast.Expr) bool, depth int) {
 		assigned := assignedBefore
 		for _, st := range list {
 			switch s := st.(type) {
 			case *ast.AssignStmt:
 				for _, l := range s.Lhs {
-					if objOf(info, l) == capObj {
+					if isCap(l) {
 						assigned = true
 					}
 				}
 			case *ast.ExprStmt:
 				if call, ok := s.X.(*ast.CallExpr); ok {
-					if c := callee(info, call); c != nil && c.Name() == "Done" && typeIs(recvType(c), "sync", "WaitGroup") {
+					c := callee(info, call)
+					if c != nil && c.Name() == "Done" && typeIs(recvType(c), "sync", "WaitGroup") {
 						nDone++
 						r.Check("C17.session-cache", fmt.Sprintf("%s|generator assigned before Done #%d", name, nDone), call.Pos(), assigned,
 							"wg.Done() releases the waiting goroutines before the generator variable they will read has been assigned")
+					} else if c != nil && depth < 2 && c.Pkg() == f.Pkg.Types {
+						// a helper that is handed the address of the generator variable: its `*p = …` is the assignment
+						if hd := p.FuncDecl(c); hd != nil && hd.Body != nil {
+							sig := c.Type().(*types.Signature)
+							var capParam types.Object
+							for i, arg := range call.Args {
+								if u, ok := stripParens(arg).(*ast.UnaryExpr); ok && u.Op == token.AND && isCap(u.X) && i < sig.Params().Len() {
+									capParam = sig.Params().At(i)
+								}
+							}
+							if capParam != nil {
+								visit(hd.Body.List, assigned, func(e ast.Expr) bool {
+									st, ok := stripParens(e).(*ast.StarExpr)
+									return ok && objOf(info, st.X) == capParam
+								}, depth+1)
+							}
+						}
 					}
 				}
 			case *ast.IfStmt:
-				visit(s.Body.List, assigned)
+				visit(s.Body.List, assigned, isCap, depth)
 			case *ast.DeferStmt:
 				if fl, ok := s.Call.Fun.(*ast.FuncLit); ok {
-					visit(fl.Body.List, false)
+					visit(fl.Body.List, false, isCap, depth)
 				}
 			}
 		}
 	}
-	visit(f.Decl.Body.List, false)
+	visit(f.Decl.Body.List, false, func(e ast.Expr) bool { return objOf(info, e) == capObj }, 0)
 	r.Check("C17.session-cache", name+"|Done on the normal and on the failure path", f.Decl.Pos(), nDone >= 2, "the WaitGroup must be released both after a successful generation and when generation fails")
 }
 
